@@ -2,6 +2,7 @@ package gen
 
 import (
 	"bytes"
+	"embed"
 	"errors"
 	"fmt"
 	ht "html/template"
@@ -18,6 +19,18 @@ import (
 	mail "github.com/wneessen/go-mail"
 	"pgregory.net/rapid"
 )
+
+//go:embed embedded/payload.bin
+var embeddedFS embed.FS
+
+// EmbeddedPayload is the content of the one file in the harness' embed.FS (source "embedfs").
+func EmbeddedPayload() []byte {
+	b, err := embeddedFS.ReadFile("embedded/payload.bin")
+	if err != nil {
+		panic("HARNESS-ERROR: " + err.Error())
+	}
+	return b
+}
 
 // ErrInjected is what fault-injecting producers return.
 var ErrInjected = errors.New("verif: injected producer failure")
@@ -670,6 +683,14 @@ func Build(spec *MsgSpec, env *Env) (*Built, error) {
 			} else {
 				m.AttachFile(path, fopts...)
 			}
+		case "embedfs":
+			// a file compiled into the program (embed.FS); its content is fixed: EmbeddedPayload()
+			fopts = append(fopts, mail.WithFileName(f.Name))
+			if embed {
+				err = m.EmbedFromEmbedFS("embedded/payload.bin", &embeddedFS, fopts...)
+			} else {
+				err = m.AttachFromEmbedFS("embedded/payload.bin", &embeddedFS, fopts...)
+			}
 		case "iofs-faulty":
 			// the library's own fs.FS producer over a file system of the caller's whose file fails in Read
 			fsys := faultyFS{data: f.Content, p: f.Prod, calls: calls, armed: b.Armed}
@@ -824,6 +845,10 @@ type GenOpts struct {
 	// Boundaries: programs with exactly ONE multipart level (the documented domain of a predefined
 	// boundary) get a caller-chosen boundary one time in four.
 	Boundaries bool
+	// MsgCharsets: one program in four declares a message charset (WithCharset) other than the default;
+	// file names and descriptions of such a program are ASCII (the charset labels the encoded-words too,
+	// and what a caller puts there is then in that charset).
+	MsgCharsets bool
 }
 
 var benignNames = []string{"file.txt", "report.pdf", "image.png", "a b.dat", "data", "übung.txt", "日本.bin", "x;y=z.bin", "semi;colon.txt", "noext", "archive.tar.gz", "spaced name here.doc",
@@ -852,6 +877,18 @@ func chunkPlan(t *rapid.T, label string) []int {
 func Program(t *rapid.T, o GenOpts) *MsgSpec {
 	spec := &MsgSpec{FixedDate: true}
 	spec.Encoding = rapid.SampledFrom(o.Encodings).Draw(t, "msgenc")
+	if o.MsgCharsets && rapid.IntRange(0, 3).Draw(t, "msgcharset") == 0 {
+		spec.Charset = rapid.SampledFrom([]string{"ISO-8859-1", "US-ASCII", "ISO-8859-15", "windows-1252", "UTF-8"}).Draw(t, "msgcharsetval")
+	}
+	asciiOnly := spec.Charset != "" && spec.Charset != "UTF-8"
+	isASCII := func(s string) bool {
+		for i := 0; i < len(s); i++ {
+			if s[i] >= 0x80 {
+				return false
+			}
+		}
+		return true
+	}
 	minParts := 1
 	if o.AllowNoBody && rapid.IntRange(0, 5).Draw(t, "nobody") == 0 {
 		minParts = 0
@@ -880,6 +917,9 @@ func Program(t *rapid.T, o GenOpts) *MsgSpec {
 		}
 		if o.Descriptions {
 			p.Desc = rapid.SampledFrom(benignDescs).Draw(t, "pdesc")
+			if asciiOnly && !isASCII(p.Desc) {
+				p.Desc = "an ASCII description"
+			}
 			p.DescBySetter = rapid.IntRange(0, 2).Draw(t, "pdescsetter") == 0
 		}
 		eff := p.Enc
@@ -911,7 +951,7 @@ func Program(t *rapid.T, o GenOpts) *MsgSpec {
 	}
 	srcs := append([]string{}, o.Sources...)
 	if len(srcs) == 0 {
-		srcs = []string{"reader", "readseeker", "file", "iofs", "texttpl", "htmltpl", "writer", "reader-pos", "reader-drain", "buffer-reuse"}
+		srcs = []string{"reader", "readseeker", "file", "iofs", "texttpl", "htmltpl", "writer", "reader-pos", "reader-drain", "buffer-reuse", "embedfs"}
 	}
 	if os.Getenv("VERIF_GEN_EXCLUDE") != "" {
 		kept := srcs[:0]
@@ -929,6 +969,9 @@ func Program(t *rapid.T, o GenOpts) *MsgSpec {
 		} else {
 			f.Name = rapid.SampledFrom(benignNames).Draw(t, label+"name")
 		}
+		if asciiOnly && !isASCII(f.Name) {
+			f.Name = "ascii name " + label + ".bin"
+		}
 		if len(o.FileEncs) > 0 {
 			f.Enc = rapid.SampledFrom(o.FileEncs).Draw(t, label+"enc")
 		}
@@ -937,6 +980,9 @@ func Program(t *rapid.T, o GenOpts) *MsgSpec {
 		}
 		if o.Descriptions {
 			f.Desc = rapid.SampledFrom(benignDescs).Draw(t, label+"desc")
+			if asciiOnly && !isASCII(f.Desc) {
+				f.Desc = "an ASCII description"
+			}
 		}
 		if rapid.IntRange(0, 3).Draw(t, label+"hascid") == 0 {
 			f.CID = rapid.SampledFrom([]string{"<cid1@verif>", "<image.1>", "<a.b.c@example.com>"}).Draw(t, label+"cid")
@@ -950,6 +996,13 @@ func Program(t *rapid.T, o GenOpts) *MsgSpec {
 			f.Content = BinaryContent(t, label+"c")
 		}
 		f.Source = rapid.SampledFrom(srcs).Draw(t, label+"src")
+		if f.Source == "embedfs" {
+			if o.CRLFOnly || f.Enc == "7bit" {
+				f.Source = "reader" // the embedded file is binary
+			} else {
+				f.Content = EmbeddedPayload()
+			}
+		}
 		if o.Chunking && f.Source == "writer" {
 			f.Prod.Chunks = chunkPlan(t, label+"chunk")
 		}
